@@ -138,7 +138,7 @@ fn debug_net(np: &NetPlan) -> String {
 
 impl Property for C15 {
     fn id(&self) -> &'static str { "C15" }
-    fn runs(&self, tier: Tier) -> u64 { match tier { Tier::Quick => 5000, Tier::Thorough => 120000 } }
+    fn runs(&self, tier: Tier) -> u64 { match tier { Tier::Quick => 12000, Tier::Thorough => 250000 } }
     fn gen_plan(&self, seed: u64, tier: Tier) -> Value {
         match family_of(seed) {
             "decoder" => json!({"family": "decoder", "dec": c15_dec::generate(seed, tier)}),
